@@ -120,9 +120,18 @@ def replay_one(module, func, params, values, opts, workdir, tag):
 
 def confirms(fail, rr):
     """Does the concrete run `rr` of the real code reproduce failure `fail`?"""
-    if rr is None or rr.get('skipped'):
+    if rr is None:
         return False, None
     bad = [c for c in rr['claims'] if not c['ok']]
+    if rr.get('skipped'):
+        # the concrete run stopped at an assumption made *after* the claims recorded
+        # so far (assumptions are not retroactive, in the symbolic run neither): a
+        # claim of the same name that failed before that point is reproduced
+        if fail['kind'] == 'claim':
+            for c in bad:
+                if c['name'] == fail['name']:
+                    return True, {'failed_claim': c['name'], 'detail': c.get('detail')}
+        return False, None
     exc = rr.get('exception')
     if fail['kind'] == 'claim':
         for c in bad:
@@ -293,8 +302,8 @@ def main(argv=None):
         for (fkind, fname), fails in groups.items():
             confirmed = False
             for fi, fail in enumerate(fails):
-                if not fail.get('values'):
-                    continue
+                if fail.get('values') is None:
+                    continue                    # (an instance without symbolic inputs has values == {})
                 tag = hashlib.sha1((label + fkind + fname).encode()).hexdigest()[:10]
                 rr = replay_one(r['harness'], r['func'], r['params'], fail['values'], t['opts'],
                                 workdir, f'{tag}-{fi}')
